@@ -41,6 +41,30 @@ CHECKS = {
  'C12': ('panic recorder around every public observer applied to every part of parsed hostile packets',
          'Exploration: ~100 observer calls per packet over hostile-byte reference messages, corpus and havoc.',
          'Only panics are judged.'),
+ 'C13': ('executable store/reply model vs build_reply (hook) over a bounded-exhaustive universe of colliding names plus random histories',
+         'Bounded-exhaustive: all stores of <= 3 (quick) / <= 4 (thorough) records over 6 colliding owner names x {A,TXT,SRV} x {authoritative,cached} x all 2352 queries of <= 2 questions; plus tens of thousands of random add/remove/clear histories with 9 record types, 2 classes, ANY/MAILB.',
+         'Model reads the statement in its weaker sense where it is ambiguous (subdomain matches allowed, exact-name matches required).'),
+ 'C14': ('global panic hook + RwLock poison probe + reply re-parse over the re-enacted handler pipelines (all inputs) and the real sync/tokio services on loopback multicast with marker queries (sampled)',
+         'Exploration: ~3*10^5 (quick) datagrams through the three pipelines against a store shared with an application thread; 2400 (quick) / 50000 (thorough) datagrams through the real SimpleMdnsResponder, ServiceDiscovery and OneShotMdnsResolver loops (sync and tokio), each batch followed by marker queries, then lock-health probes through the public API.',
+         'Level 1 re-enacts private loop bodies; level 2 needs loopback multicast (skipped and said so otherwise); missing marker replies without a panic are inconclusive.'),
+ 'C15': ('announce -> compressed wire -> parse -> real ingest function (hook) -> store -> from_records, compared with the announced descriptions; channel values; bounded-exhaustive escape/unescape',
+         'Exploration over thousands of multi-peer histories in three modes (sync without/with channel, tokio) with foreign-traffic interleaving; escape/unescape exhaustive over a 5-symbol alphabet up to length 7/8.',
+         'Domain limits of DESIGN.md C15.'),
+ 'C16': ('owned-copy observer after the receive buffer is overwritten and dropped; fixed-key hash comparison of equal values built through different routes',
+         'Exploration over parsed arbitrary-compression messages of all 40 types and InstanceInformation pairs built in 8 insertion orders each.',
+         'DefaultHasher::new() is deterministic.'),
+ 'C17': ('independent label grammar and suffix algebra vs Name::new / Display / is_subdomain_of / without / is_link_local, bounded-exhaustive',
+         'Bounded-exhaustive: all strings of length <= 6 (quick) / 8 (thorough) over an 8-symbol alphabet, all label lengths 0..70 x 6 variants, wire lengths 245..262, all ordered pairs of 46 names.',
+         'Grammar transcribed from the property statement.'),
+ 'C18': ('independent IANA table over all 65536 codes; matching matrix on built and parsed records',
+         'Exhaustive over all 65536 codes for TYPE/QTYPE/CLASS/QCLASS; matching matrix of 48 record codes x 43 question types x 6 classes for both construction routes.',
+         'IANA table written by hand in the harness.'),
+ 'C19': ('independent splitter / joiner and wire decode vs the TXT conversions',
+         'Exploration: tens of thousands of Unicode strings with multi-byte characters across chunk boundaries, attribute maps with absent/empty values, look-alike code points; every length 0..300 for the constructors.',
+         'Maps compared on non-empty keys.'),
+ 'C20': ('interval-tolerant time model around bracketed library calls (real sleeps; Miri virtual clock in thorough)',
+         'Exploration: 480 (quick) / 6400 (thorough) histories of 6..14 steps with TTLs {0,1,2,1000}, cache-flush, re-adds, removes, clears and sleeps, each step followed by queries under the four filters; ~10^5 per-record decisions.',
+         'Instant is monotonic; tolerance band = bracketing interval.'),
 }
 TECH_NA = 'check not built yet (work in progress; see DESIGN.md section 4)'
 def main():
